@@ -38,6 +38,8 @@ type Plan struct {
 	Units       []UnitPlan
 	Structural  func(e *vc.Engine) []StructResult
 	Prepare     func(e *vc.Engine) error
+	// ExtraUnits builds additional units (lemmas) that are discharged like the others.
+	ExtraUnits  func(e *vc.Engine) ([]*vc.Unit, error)
 	Assumptions []string
 	NotCovered  []string
 	Bounded     []string
@@ -173,6 +175,24 @@ func Check(id, tier string, seed int) int {
 		}()
 	}
 	wg.Wait()
+	if p.ExtraUnits != nil {
+		us, err := p.ExtraUnits(e)
+		if err != nil {
+			fmt.Printf("ENGINE-ERROR property=%s %v\n", id, err)
+			return 2
+		}
+		var wg2 sync.WaitGroup
+		for _, u := range us {
+			u := u
+			results = append(results, unitRes{UnitPlan{Func: u.Name()}, u, nil})
+			wg2.Add(1)
+			go func() {
+				defer wg2.Done()
+				u.Discharge(context.Background(), vc.RunOpts{TimeoutMs: timeout, Seed: seed, Tier: tier, OutDir: outDir}, stats, &mu)
+			}()
+		}
+		wg2.Wait()
+	}
 	known := LoadKnown(filepath.Join(verif, "known_findings.txt"))
 	knownByName := map[string]Known{}
 	for _, k := range known {
